@@ -416,6 +416,37 @@ theorem consumers_within_slack (x x' e : Date) (h1 : -15 ≤ x'.inst - x.inst) (
   simp only [subDate, Date.datetimeRef, Date.inst, D, DUS] at *
   omega
 
+/-! ## tables indexed by dates, and where the consumers take clock readings -/
+
+/-- **an index of dated nodes keyed by what `Date.__hash__` / `__eq__` / `_mjd` see is label-free, and a hit is the node AT
+the requested instant**: two requests of one instant get the same answer whatever their labels, and the answer, when there
+is one, is the value of a node that `==` the request (`Model/DateIter.lean: nodeLookup`, the idiom
+`{key(node): value}.get(key(request))`).  Keyed by the clock reading `.datetime` instead, the index answers a request that
+merely SHOWS what a node shows under another label: `C04W.reading_key_confuses_labels`. -/
+theorem nodeLookup_by_instant {β : Type} (tbl : List (Date × β)) (q q' : Date) (hq : 0 ≤ q.s ∧ q.s < D)
+    (hq' : 0 ≤ q'.s ∧ q'.s < D) (hi : q.inst = q'.inst) :
+    nodeLookup Date.hashKey tbl q = nodeLookup Date.hashKey tbl q' ∧
+    ∀ v, nodeLookup Date.hashKey tbl q = some v → ∃ n ∈ tbl, n.2 = v ∧ n.1.eq q = true := by
+  obtain ⟨a1, a2⟩ := same_inst_same_ds hq hq' hi
+  have hk : q.hashKey = q'.hashKey := by simp only [Date.hashKey, Date.datetimeRef, a1, a2]
+  refine ⟨by simp only [nodeLookup, hk], ?_⟩
+  intro v hv
+  unfold nodeLookup at hv
+  cases hf : tbl.find? (fun n => decide (Date.hashKey n.1 = Date.hashKey q)) with
+  | none => rw [hf] at hv; cases hv
+  | some n =>
+    rw [hf] at hv
+    have hp := List.find?_some hf
+    refine ⟨n, List.mem_of_find?_eq_some hf, by simpa using hv, ?_⟩
+    exact hp
+
+/-- **no date-consuming module takes a clock reading in the caller's scale** (regenerated from the AST of the propagators,
+the ephemeris, the interpolator, maneuvers, listeners, Sun/Moon and the TLE writer): every `.datetime` / `.mjd` / `.jd` /
+`.julian_century` / `strftime` / `%`-format of a date there is taken after an explicit `change_scale("<SCALE>")`; the
+interpolator, Kepler, J2, numerical, CW and the listeners take none at all (they use `_mjd`, `-` and comparisons: the instant) -/
+theorem consumers_take_no_own_scale_reading :
+    consumerReadingSites ≠ [] ∧ ∀ s ∈ consumerReadingSites, s.2.2 ≠ "own-scale" := by decide
+
 /-! ## CCSDS: reading an epoch in the message's TIME_SYSTEM -/
 
 /-- **every format branch of `parse_date` hands the scale on to the constructed date** (regenerated cascade) -/
